@@ -416,3 +416,39 @@ def one_pipeline(ctx):
     mt = db.func("template.ModuleTemplate.__init__")
     t = src(mt)
     ctx.check(pm.has(mt, "self.uri = $m._template_uri") and pm.has(mt, "self.input_encoding = $m._source_encoding") and pm.has(mt, "self.enable_loop = $m._enable_loop"), "ModuleTemplate.identity", db.where(mt), "ModuleTemplate does not take uri / encoding / enable_loop from the module", "identity from module attributes")
+
+
+@rule("C08.argument-presence", primary=False, min_instances=2, props=["C07", "C04"])
+def argument_presence(ctx):
+    """whether the context supplies an argument of a def / included page is decided by membership (`name in data`), not by the value found there: None, 0 and '' are values like any other, for render(), get_def(name).render() and <%include> alike"""
+    db = ctx.db
+    for q in ("runtime._kwargs_for_callable", "runtime._kwargs_for_include"):
+        fn = db.func(q)
+        group = db.with_helpers(fn)
+        member, by_value = [], []
+        for g in group:
+            params = {a.arg for a in g.args.args}
+            for n in walk_func(g):
+                if isinstance(n, ast.Compare) and len(n.ops) == 1 and isinstance(n.ops[0], (ast.In, ast.NotIn)) and isinstance(n.comparators[0], ast.Name) and n.comparators[0].id in params:
+                    member.append((g, n))
+                if isinstance(n, ast.Call) and isinstance(n.func, ast.Attribute) and n.func.attr == "get" and isinstance(n.func.value, ast.Name) and n.func.value.id in params and len(n.args) == 1:
+                    # is the value looked up only to see whether there is one?
+                    par = getattr(n, "_parent", None)
+                    names = {t.id for t in par.targets if isinstance(t, ast.Name)} if isinstance(par, ast.Assign) else set()
+                    for t in walk_func(g):
+                        test = t.test if isinstance(t, (ast.If, ast.IfExp, ast.While)) else None
+                        if test is None:
+                            continue
+                        for x in ast.walk(test):
+                            if (x is n) or (isinstance(x, ast.Name) and x.id in names):
+                                by_value.append((g, n, test))
+        data_member = [m for m in member if src(m[1].comparators[0]) != "kwargs"]
+        key = "presence:" + q.split(".")[-1]
+        by_value = [b for b in by_value if not any(m[0] is b[0] and isinstance(m[1].ops[0], ast.In) and m[1].comparators[0].id == b[1].func.value.id for m in member)]
+        if by_value:
+            g, n, test = by_value[0]
+            ctx.violation(key, db.where(n), "%s takes an argument from the context only when `%s` (the value found by `%s`), not when the name is present: an argument the caller passed as None falls back to the def's / page's own default (get_def(name).render(x=None) and the body call then disagree)" % (q.split(".")[-1], " ".join(src(test).split())[:60], src(n)))
+        elif any(isinstance(m[1].ops[0], ast.In) for m in data_member):
+            ctx.ok(key, db.where(fn), "presence decided by membership")
+        else:
+            ctx.undecided(key, db.where(fn), "neither a membership test nor a value test on the context data found")
